@@ -487,6 +487,86 @@ Proof.
     destruct (Z.testbit a i), (Z.testbit b i), (Z.testbit c i), (i <? N); reflexivity.
 Qed.
 
+(* ---- the sign-magnitude key orders bit patterns exactly as the denoted values are ordered ---- *)
+(* |value| * 2^(bias + mw - 1): an integer, because every exponent is at least 1 - bias - mw *)
+Definition f_scaled (mw ew x : Z) : Z := f_m mw ew x * 2 ^ (f_e mw ew x - (1 - f_bias ew - mw)).
+Definition f_sval (mw ew x : Z) : Z := if f_sign mw ew x =? 0 then f_scaled mw ew x else - f_scaled mw ew x.
+
+Definition sc (M E F : Z) : Z := if E =? 0 then F else (F + M) * 2 ^ (E - 1).
+
+Lemma sc_lex M Ex Fx Ey Fy : 0 < M -> 0 <= Ex -> 0 <= Ey -> 0 <= Fx < M -> 0 <= Fy < M ->
+  (Ex < Ey \/ (Ex = Ey /\ Fx < Fy)) -> sc M Ex Fx < sc M Ey Fy.
+Proof.
+  intros HM HEx HEy HFx HFy [Hlt|[-> Hlt]]; unfold sc.
+  - destruct (Z.eqb_spec Ey 0); [lia|]. pose proof (pow2_pos (Ey - 1) ltac:(lia)) as PY.
+    destruct (Z.eqb_spec Ex 0).
+    + nia.
+    + pose proof (pow2_pos (Ex - 1) ltac:(lia)) as PX.
+      assert (LE : 2 * 2 ^ (Ex - 1) <= 2 ^ (Ey - 1)).
+      { rewrite <- Z.pow_succ_r by lia. apply Z.pow_le_mono_r; lia. }
+      nia.
+  - destruct (Z.eqb_spec Ey 0); [lia|]. pose proof (pow2_pos (Ey - 1) ltac:(lia)). nia.
+Qed.
+
+Lemma fields mw ew x : fmt_ok mw ew -> fbits mw ew x ->
+  0 <= f_exp mw ew x < 2 ^ ew /\ 0 <= f_frac mw x < 2 ^ mw /\ f_mag mw ew x = f_exp mw ew x * 2 ^ mw + f_frac mw x /\
+  f_scaled mw ew x = sc (2 ^ mw) (f_exp mw ew x) (f_frac mw x).
+Proof.
+  intros F Hx. destruct F as [Hm He]. unfold f_exp, f_frac, f_mag, f_scaled, f_m, f_e, sc, f_exp, f_frac.
+  pose proof (pow2_pos mw ltac:(lia)) as PM. pose proof (pow2_pos ew ltac:(lia)) as PE.
+  rewrite (Z.pow_add_r 2 mw ew) by lia.
+  set (M := 2 ^ mw) in *. set (E := 2 ^ ew) in *.
+  pose proof (Z.mod_pos_bound (x / M) E ltac:(lia)). pose proof (Z.mod_pos_bound x M ltac:(lia)).
+  splits; try lia.
+  - rewrite Z.rem_mul_r by lia. ring.
+  - destruct (Z.eqb_spec ((x / M) mod E) 0).
+    + replace (1 - f_bias ew - mw - (1 - f_bias ew - mw)) with 0 by lia. rewrite Z.pow_0_r. lia.
+    + f_equal. f_equal. lia.
+Qed.
+
+Lemma f_mag_order mw ew x y : fmt_ok mw ew -> fbits mw ew x -> fbits mw ew y ->
+  (f_mag mw ew x < f_mag mw ew y <-> f_scaled mw ew x < f_scaled mw ew y) /\
+  (f_mag mw ew x = f_mag mw ew y <-> f_scaled mw ew x = f_scaled mw ew y).
+Proof.
+  intros F Hx Hy. destruct (fields mw ew x F Hx) as (Ex & Fx & -> & ->). destruct (fields mw ew y F Hy) as (Ey & Fy & -> & ->).
+  pose proof (pow2_pos mw ltac:(destruct F; lia)) as PM.
+  set (M := 2 ^ mw) in *. set (ex := f_exp mw ew x) in *. set (fx := f_frac mw x) in *. set (ey := f_exp mw ew y) in *. set (fy := f_frac mw y) in *.
+  clearbody M ex fx ey fy.
+  assert (L1 : ex * M + fx < ey * M + fy -> ex < ey \/ (ex = ey /\ fx < fy)) by nia.
+  assert (L2 : ey * M + fy < ex * M + fx -> ey < ex \/ (ey = ex /\ fy < fx)) by nia.
+  assert (L3 : ex * M + fx = ey * M + fy -> ex = ey /\ fx = fy).
+  { intros H. assert (ex = ey) by (destruct (Z.lt_trichotomy ex ey) as [?|[?|?]]; nia). split; [assumption|nia]. }
+  pose proof (sc_lex M ex fx ey fy PM ltac:(lia) ltac:(lia) Fx Fy) as S1.
+  pose proof (sc_lex M ey fy ex fx PM ltac:(lia) ltac:(lia) Fy Fx) as S2.
+  split; split; intros H.
+  - apply S1, L1, H.
+  - destruct (Z.lt_trichotomy (ex * M + fx) (ey * M + fy)) as [?|[E|G]]; [assumption| |].
+    + apply L3 in E. destruct E as [-> ->]. lia.
+    + apply L2, S2 in G. lia.
+  - apply L3 in H. destruct H as [-> ->]. reflexivity.
+  - destruct (Z.lt_trichotomy (ex * M + fx) (ey * M + fy)) as [L|[E|G]]; [|assumption|].
+    + apply L1, S1 in L. lia.
+    + apply L2, S2 in G. lia.
+Qed.
+
+Lemma f_scaled_nonneg mw ew x : fmt_ok mw ew -> fbits mw ew x -> 0 <= f_scaled mw ew x /\ (f_scaled mw ew x = 0 <-> f_mag mw ew x = 0).
+Proof.
+  intros F Hx. destruct (fields mw ew x F Hx) as (Ex & Fx & -> & ->). pose proof (pow2_pos mw ltac:(destruct F; lia)) as PM.
+  unfold sc. destruct (Z.eqb_spec (f_exp mw ew x) 0) as [->|]. lia.
+  pose proof (pow2_pos (f_exp mw ew x - 1) ltac:(lia)). nia.
+Qed.
+
+(* comparisons of non-NaN floats are comparisons of the denoted values (scaled by a fixed power of two) *)
+Lemma f_key_order mw ew x y : fmt_ok mw ew -> fbits mw ew x -> fbits mw ew y ->
+  (f_key mw ew x < f_key mw ew y <-> f_sval mw ew x < f_sval mw ew y) /\
+  (f_key mw ew x = f_key mw ew y <-> f_sval mw ew x = f_sval mw ew y).
+Proof.
+  intros F Hx Hy. destruct (f_mag_order mw ew x y F Hx Hy) as (O1 & O2). destruct (f_mag_order mw ew y x F Hy Hx) as (O3 & O4).
+  destruct (f_scaled_nonneg mw ew x F Hx) as (Nx & Zx). destruct (f_scaled_nonneg mw ew y F Hy) as (Ny & Zy).
+  destruct (f_sign_mag mw ew x F Hx) as (_ & Mx & _). destruct (f_sign_mag mw ew y F Hy) as (_ & My & _).
+  unfold f_key, f_sval. destruct (f_sign mw ew x =? 0), (f_sign mw ew y =? 0); lia.
+Qed.
+
 (* ------------------------------------------------------------------------------------------------ *)
 (* exhaustive sweeps over 8-bit pairs and 16-bit values, lifted to universally quantified statements *)
 
